@@ -3,6 +3,7 @@
 package main
 
 import (
+	"crypto/sha256"
 	"encoding/json"
 	"fmt"
 	"math/big"
@@ -598,6 +599,49 @@ func (e *execEngine) query(ws []string) string {
 		return fmt.Sprintf("%s ordered=%d", s.Status, b2i(s.Ordered))
 	case "height":
 		return fmt.Sprint(n.ldg.GetChainMeta().Height)
+	case "dump":
+		// implementation-only observation: every committed storage key of every built-in contract (hashed values),
+		// balances and nonces of all named accounts.  The model does not predict it ("-").
+		return "- ## " + n.dumpState(e.admInit)
+	case "view": // q view <contract> <method> args... : read-only execution through the view executor
+		var args []*pb.Arg
+		for _, a := range ws[3:] {
+			arg, err := parseArg(a)
+			if err != nil {
+				return "bad-op"
+			}
+			args = append(args, arg)
+		}
+		r := n.view(resolveAddr(ws[1]), ws[2], args...)
+		return "- ## " + retClass(r)
 	}
 	return "bad-op"
+}
+
+func (n *node) dumpState(admInit map[string]*big.Int) string {
+	var parts []string
+	names := make([]string, 0, len(contractAddrs))
+	for name := range contractAddrs {
+		names = append(names, name)
+	}
+	sort.Strings(names)
+	for _, name := range names {
+		addr := contractAddrs[name].Address()
+		begin := addr.Bytes()
+		end := append([]byte{}, begin...)
+		end[len(end)-1]++
+		it := n.stateDB.Iterator(begin, end)
+		for it.Next() {
+			k := string(it.Key()[len(begin):])
+			h := sha256.Sum256(it.Value())
+			parts = append(parts, fmt.Sprintf("%s/%s=%x", name, strings.ReplaceAll(k, " ", "_"), h[:4]))
+		}
+	}
+	accts := append(append([]string{}, worldUsers...), "ca1", "ca2", "ca3", "adm0", "adm1", "adm2", "adm3", "viewer")
+	led := n.ldg.Copy()
+	for _, a := range accts {
+		parts = append(parts, fmt.Sprintf("bal/%s=%s", a, led.GetBalance(acct(a).addr).String()))
+		parts = append(parts, fmt.Sprintf("nonce/%s=%d", a, led.GetNonce(acct(a).addr)))
+	}
+	return strings.Join(parts, " ")
 }
